@@ -37,8 +37,10 @@ def gen_ops(seed, profile, nops):
     return r.stdout.splitlines()
 
 
-def run_impl(binary, ops, timeout=600):
+def run_impl(binary, ops, timeout=None):
     """returns (transcript lines, returncode, stderr tail)"""
+    if timeout is None:
+        timeout = 150 + len(ops) // 10     # generous for the sanitized build; a hang is a result
     try:
         p = subprocess.run([binary, "--autodump"], input="\n".join(ops) + "\n", capture_output=True, text=True,
                            timeout=timeout)
